@@ -67,7 +67,7 @@ fn fit_fired() -> bool {
 pub struct FIt {
     pub items: std::vec::IntoIter<T8>,
     pub calls: u64,
-    pub panic_at: u64,    // 0 = never
+    pub panic_at: u64,      // 0 = never
     pub report: Vec<usize>, // successive answers of len()/size_hint(); last one repeats; empty = truthful
     pub asked: std::cell::Cell<usize>,
     pub exact_hint: bool,
@@ -157,7 +157,11 @@ fn end(what: &str, id0: u32, tolerated: &[u32], max_leaked_blocks: usize) -> R {
     }
     if shadow::active() {
         if let Some(x) = shadow::take_findings().first() {
-            return viol("C07", "faults", format!("{}: allocator monitor: {:?}", what, x));
+            return viol(
+                "C07",
+                "faults",
+                format!("{}: allocator monitor: {:?}", what, x),
+            );
         }
         let lb = shadow::live_blocks();
         ensure!(
@@ -207,18 +211,43 @@ fn check_built(what: &str, b: &Built, ids: &[u32]) -> R {
     let s: &[T8] = match b {
         Built::Hs(a) => &a.slice,
         Built::Thin(t) => {
-            ensure!(t.header.length == t.slice.len(), "C07,C10", "faults", "{}: ThinArc records a wrong length", what);
+            ensure!(
+                t.header.length == t.slice.len(),
+                "C07,C10",
+                "faults",
+                "{}: ThinArc records a wrong length",
+                what
+            );
             &t.slice
         }
         Built::Sl(a) => &a[..],
         Built::Us(u) => &u[..],
     };
-    ensure!(s.len() == ids.len(), "C07,C06", "faults", "{}: completed with {} elements although the iterator yielded {}", what, s.len(), ids.len());
+    ensure!(
+        s.len() == ids.len(),
+        "C07,C06",
+        "faults",
+        "{}: completed with {} elements although the iterator yielded {}",
+        what,
+        s.len(),
+        ids.len()
+    );
     for (k, e) in s.iter().enumerate() {
         if let Err(m) = e.check() {
-            return viol("C07", "faults", format!("{}: element {} of the result: {}", what, k, m));
+            return viol(
+                "C07",
+                "faults",
+                format!("{}: element {} of the result: {}", what, k, m),
+            );
         }
-        ensure!(e.id() == ids[k], "C07,C06", "faults", "{}: element {} is not the one the iterator yielded", what, k);
+        ensure!(
+            e.id() == ids[k],
+            "C07,C06",
+            "faults",
+            "{}: element {} is not the one the iterator yielded",
+            what,
+            k
+        );
     }
     Ok(())
 }
@@ -227,7 +256,13 @@ fn check_built_valid(what: &str, b: &Built, ids: &[u32]) -> R {
     let s: &[T8] = match b {
         Built::Hs(a) => &a.slice,
         Built::Thin(t) => {
-            ensure!(t.header.length == t.slice.len(), "C07,C10", "faults", "{}: ThinArc records a wrong length", what);
+            ensure!(
+                t.header.length == t.slice.len(),
+                "C07,C10",
+                "faults",
+                "{}: ThinArc records a wrong length",
+                what
+            );
             &t.slice
         }
         Built::Sl(a) => &a[..],
@@ -236,9 +271,23 @@ fn check_built_valid(what: &str, b: &Built, ids: &[u32]) -> R {
     let mut seen = Vec::new();
     for (k, e) in s.iter().enumerate() {
         if let Err(m) = e.check() {
-            return viol("C07", "faults", format!("{}: slot {} of the result was never written or is damaged: {}", what, k, m));
+            return viol(
+                "C07",
+                "faults",
+                format!(
+                    "{}: slot {} of the result was never written or is damaged: {}",
+                    what, k, m
+                ),
+            );
         }
-        ensure!(ids.contains(&e.id()) && !seen.contains(&e.id()), "C07", "faults", "{}: slot {} holds a value the iterator did not yield (or holds it twice)", what, k);
+        ensure!(
+            ids.contains(&e.id()) && !seen.contains(&e.id()),
+            "C07",
+            "faults",
+            "{}: slot {} holds a value the iterator did not yield (or holds it twice)",
+            what,
+            k
+        );
         seen.push(e.id());
     }
     Ok(())
@@ -257,13 +306,26 @@ pub fn iter_panics(site: usize, n: usize, st: &mut FStats) -> R {
         let mut tolerated: Vec<u32> = Vec::new();
         match r {
             Ok(b) => {
-                ensure!(!fired, "C07", "faults", "{}: completed although the iterator panicked", what);
+                ensure!(
+                    !fired,
+                    "C07",
+                    "faults",
+                    "{}: completed although the iterator panicked",
+                    what
+                );
                 check_built(&what, &b, &ids)?;
                 shadow::tracked(|| drop(b));
                 st.counts.bump("faults.iter.completed");
             }
             Err(msg) => {
-                ensure!(fired, "C07", "faults", "{}: panicked without an injected fault: {}", what, msg);
+                ensure!(
+                    fired,
+                    "C07",
+                    "faults",
+                    "{}: panicked without an injected fault: {}",
+                    what,
+                    msg
+                );
                 // the header and the elements already yielded may sit in the leaked half-built block
                 if site != 3 {
                     tolerated.push(id0 + n as u32); // header id: made right after the n elements
@@ -273,14 +335,22 @@ pub fn iter_panics(site: usize, n: usize, st: &mut FStats) -> R {
             }
         }
         end(&what, id0, &tolerated, if site == 3 { 0 } else { 1 })?;
-        st.cases.insert(hash64(&format!("iter|{}|{}|{}", site, n, k)));
+        st.cases
+            .insert(hash64(&format!("iter|{}|{}|{}", site, n, k)));
         st.counts.bump("faults.iter.runs");
         if !fired {
             break;
         }
         k += 1;
         if k > n as u64 + 8 {
-            return viol("C07", "faults", format!("{} n={}: next() was called more than {} times", ITER_NAMES[site], n, k));
+            return viol(
+                "C07",
+                "faults",
+                format!(
+                    "{} n={}: next() was called more than {} times",
+                    ITER_NAMES[site], n, k
+                ),
+            );
         }
     }
     Ok(())
@@ -288,7 +358,10 @@ pub fn iter_panics(site: usize, n: usize, st: &mut FStats) -> R {
 
 /// Lying iterators: (reported, actual) pairs and answers that change between calls.
 pub fn iter_lies(site: usize, actual: usize, report: Vec<usize>, st: &mut FStats) -> R {
-    let what = format!("{} actual={} reported={:?}", ITER_NAMES[site], actual, report);
+    let what = format!(
+        "{} actual={} reported={:?}",
+        ITER_NAMES[site], actual, report
+    );
     let id0 = begin();
     let truthful = report.iter().all(|r| *r == actual);
     let (it, ids) = shadow::tracked(|| fit(actual, 0, report.clone(), site != 3));
@@ -304,17 +377,28 @@ pub fn iter_lies(site: usize, actual: usize, report: Vec<usize>, st: &mut FStats
                 check_built_valid(&what, &b, &ids)?;
             }
             shadow::tracked(|| drop(b));
-            st.counts.bump(if truthful { "faults.lie.truthful-completed" } else { "faults.lie.completed-validly" });
+            st.counts.bump(if truthful {
+                "faults.lie.truthful-completed"
+            } else {
+                "faults.lie.completed-validly"
+            });
         }
         Err(_) => {
-            ensure!(!truthful, "C07", "faults", "{}: panicked on a truthful iterator", what);
+            ensure!(
+                !truthful,
+                "C07",
+                "faults",
+                "{}: panicked on a truthful iterator",
+                what
+            );
             tolerated.push(id0 + actual as u32);
             tolerated.extend(ids.iter());
             st.counts.bump("faults.lie.propagated");
         }
     }
     end(&what, id0, &tolerated, if site == 3 { 0 } else { 1 })?;
-    st.cases.insert(hash64(&format!("lie|{}|{}|{:?}", site, actual, report)));
+    st.cases
+        .insert(hash64(&format!("lie|{}|{}|{:?}", site, actual, report)));
     st.counts.bump("faults.lie.runs");
     Ok(())
 }
@@ -323,7 +407,12 @@ pub fn iter_lies(site: usize, actual: usize, report: Vec<usize>, st: &mut FStats
 // B. Clone::clone inside make_mut / make_unique / unwrap_or_clone / OffsetArc::make_mut
 
 pub const CLONE_SITES: usize = 4;
-const CLONE_NAMES: [&str; CLONE_SITES] = ["Arc::make_mut", "Arc::make_unique", "Arc::unwrap_or_clone", "OffsetArc::make_mut"];
+const CLONE_NAMES: [&str; CLONE_SITES] = [
+    "Arc::make_mut",
+    "Arc::make_unique",
+    "Arc::unwrap_or_clone",
+    "OffsetArc::make_mut",
+];
 pub const CO_KINDS: usize = 4;
 const CO_NAMES: [&str; CO_KINDS] = ["Arc", "OffsetArc", "ArcUnion", "raw"];
 
@@ -345,8 +434,13 @@ fn co_view(c: &Co) -> (&Multi, usize) {
     match c {
         Co::Arc(a) => (&**a, Arc::count(a)),
         Co::Off(o) => (&**o, OffsetArc::strong_count(o)),
-        Co::Un(u) => (unsafe { &*(u.as_first().unwrap().get() as *const Multi) }, ArcUnion::strong_count(u)),
-        Co::Raw(p) => (unsafe { &**p }, unsafe { triomphe::ArcBorrow::strong_count(&triomphe::ArcBorrow::from_ptr(*p)) }),
+        Co::Un(u) => (
+            unsafe { &*(u.as_first().unwrap().get() as *const Multi) },
+            ArcUnion::strong_count(u),
+        ),
+        Co::Raw(p) => (unsafe { &**p }, unsafe {
+            triomphe::ArcBorrow::strong_count(&triomphe::ArcBorrow::from_ptr(*p))
+        }),
     }
 }
 fn co_drop(c: Co) {
@@ -362,7 +456,10 @@ pub fn clone_panics(site: usize, co_kind: usize, st: &mut FStats) -> R {
     // one clone of Multi = 3 callback invocations
     let calls = 3u64;
     for k in 1..=calls + 1 {
-        let what = format!("{} with a co-owning {}: panic at Clone::clone call {}", CLONE_NAMES[site], CO_NAMES[co_kind], k);
+        let what = format!(
+            "{} with a co-owning {}: panic at Clone::clone call {}",
+            CLONE_NAMES[site], CO_NAMES[co_kind], k
+        );
         let id0 = begin();
         let x: Arc<Multi> = shadow::tracked(|| Arc::new(Multi::make(20)));
         let orig = x.ids();
@@ -391,7 +488,14 @@ pub fn clone_panics(site: usize, co_kind: usize, st: &mut FStats) -> R {
         });
         tk::clone_panic_at(0);
         let panicked = r.is_err();
-        ensure!(panicked == (k <= calls), "C07", "faults", "{}: panicked={} unexpectedly", what, panicked);
+        ensure!(
+            panicked == (k <= calls),
+            "C07",
+            "faults",
+            "{}: panicked={} unexpectedly",
+            what,
+            panicked
+        );
         if let (Co::Arc(a), true) = (&co, panicked && site != 2) {
             // two owning handles exist: no uniqueness-gated API may grant access through the co-owner
             ensure!(
@@ -405,9 +509,19 @@ pub fn clone_panics(site: usize, co_kind: usize, st: &mut FStats) -> R {
         // the co-owner always survives: it must see the original, intact, and an accurate count
         let (cv, ccount) = co_view(&co);
         if let Err(m) = cv.check() {
-            return viol("C07", "faults", format!("{}: the co-owner's value: {}", what, m));
+            return viol(
+                "C07",
+                "faults",
+                format!("{}: the co-owner's value: {}", what, m),
+            );
         }
-        ensure!(cv.ids() == orig && cv.a.tag() == 20, "C07,C08", "faults", "{}: the co-owner no longer sees the original value", what);
+        ensure!(
+            cv.ids() == orig && cv.a.tag() == 20,
+            "C07,C08",
+            "faults",
+            "{}: the co-owner no longer sees the original value",
+            what
+        );
         let survivors_on_orig = if panicked {
             // unwrap_or_clone consumed its handle (released during unwinding); the others keep theirs
             if site == 2 {
@@ -429,12 +543,30 @@ pub fn clone_panics(site: usize, co_kind: usize, st: &mut FStats) -> R {
         );
         if panicked {
             if let Some(x) = &x_opt {
-                ensure!(x.heap_ptr() as usize == block && x.ids() == orig && x.check().is_ok(), "C07", "faults", "{}: the calling handle no longer refers to the intact original", what);
+                ensure!(
+                    x.heap_ptr() as usize == block && x.ids() == orig && x.check().is_ok(),
+                    "C07",
+                    "faults",
+                    "{}: the calling handle no longer refers to the intact original",
+                    what
+                );
             }
             if let Some(o) = &off {
-                ensure!(o.ids() == orig && o.check().is_ok() && OffsetArc::strong_count(o) == 2, "C07", "faults", "{}: the OffsetArc no longer refers to the intact original", what);
+                ensure!(
+                    o.ids() == orig && o.check().is_ok() && OffsetArc::strong_count(o) == 2,
+                    "C07",
+                    "faults",
+                    "{}: the OffsetArc no longer refers to the intact original",
+                    what
+                );
             }
-            ensure!(got.is_none(), "C07", "faults", "{}: a value came back although the clone panicked", what);
+            ensure!(
+                got.is_none(),
+                "C07",
+                "faults",
+                "{}: a value came back although the clone panicked",
+                what
+            );
             st.counts.bump("faults.clone.propagated");
         } else {
             st.counts.bump("faults.clone.completed");
@@ -446,7 +578,8 @@ pub fn clone_panics(site: usize, co_kind: usize, st: &mut FStats) -> R {
             co_drop(co);
         });
         end(&what, id0, &[], 0)?;
-        st.cases.insert(hash64(&format!("clone|{}|{}|{}", site, co_kind, k)));
+        st.cases
+            .insert(hash64(&format!("clone|{}|{}|{}", site, co_kind, k)));
     }
     st.counts.add("faults.clone.runs", calls + 1);
     Ok(())
@@ -474,9 +607,17 @@ pub fn closure_panics(site: usize, shared: bool, st: &mut FStats) -> R {
     let want = if shared { 2 } else { 1 };
     match site {
         0 | 4 | 5 | 6 | 7 | 8 => {
-            let mut t: ThinArc<T8, T8> = shadow::tracked(|| ThinArc::from_header_and_iter(T8::make(1), fit(3, 0, vec![], true).0));
-            let co = if shared { Some(shadow::tracked(|| t.clone())) } else { None };
-            let other: ThinArc<T8, T8> = shadow::tracked(|| ThinArc::from_header_and_iter(T8::make(2), fit(2, 0, vec![], true).0));
+            let mut t: ThinArc<T8, T8> = shadow::tracked(|| {
+                ThinArc::from_header_and_iter(T8::make(1), fit(3, 0, vec![], true).0)
+            });
+            let co = if shared {
+                Some(shadow::tracked(|| t.clone()))
+            } else {
+                None
+            };
+            let other: ThinArc<T8, T8> = shadow::tracked(|| {
+                ThinArc::from_header_and_iter(T8::make(2), fit(2, 0, vec![], true).0)
+            });
             let other_heap = other.heap_ptr() as usize;
             let t_heap = t.heap_ptr() as usize;
             let mut repl = Some(Arc::protected_from_thin(other));
@@ -504,18 +645,66 @@ pub fn closure_panics(site: usize, shared: bool, st: &mut FStats) -> R {
                     }),
                 })
             });
-            ensure!(r.is_err(), "C07", "faults", "{}: the panic was swallowed", what);
+            ensure!(
+                r.is_err(),
+                "C07",
+                "faults",
+                "{}: the panic was swallowed",
+                what
+            );
             if site == 6 {
-                ensure!(t.heap_ptr() as usize == other_heap, "C07,C10", "faults", "{}: the ThinArc does not point at the replacement", what);
-                ensure!(ThinArc::strong_count(&t) == 1, "C07,C04", "faults", "{}: the replacement reports count {}", what, ThinArc::strong_count(&t));
+                ensure!(
+                    t.heap_ptr() as usize == other_heap,
+                    "C07,C10",
+                    "faults",
+                    "{}: the ThinArc does not point at the replacement",
+                    what
+                );
+                ensure!(
+                    ThinArc::strong_count(&t) == 1,
+                    "C07,C04",
+                    "faults",
+                    "{}: the replacement reports count {}",
+                    what,
+                    ThinArc::strong_count(&t)
+                );
                 if let Some(c) = &co {
-                    ensure!(ThinArc::strong_count(c) == 1 && c.heap_ptr() as usize == t_heap, "C07,C10", "faults", "{}: the old allocation was not released exactly once (count {})", what, ThinArc::strong_count(c));
+                    ensure!(
+                        ThinArc::strong_count(c) == 1 && c.heap_ptr() as usize == t_heap,
+                        "C07,C10",
+                        "faults",
+                        "{}: the old allocation was not released exactly once (count {})",
+                        what,
+                        ThinArc::strong_count(c)
+                    );
                 }
             } else {
-                ensure!(t.heap_ptr() as usize == t_heap, "C07", "faults", "{}: the ThinArc moved", what);
-                ensure!(ThinArc::strong_count(&t) == want, "C07,C04", "faults", "{}: count {} after the panic, {} handles alive", what, ThinArc::strong_count(&t), want);
+                ensure!(
+                    t.heap_ptr() as usize == t_heap,
+                    "C07",
+                    "faults",
+                    "{}: the ThinArc moved",
+                    what
+                );
+                ensure!(
+                    ThinArc::strong_count(&t) == want,
+                    "C07,C04",
+                    "faults",
+                    "{}: count {} after the panic, {} handles alive",
+                    what,
+                    ThinArc::strong_count(&t),
+                    want
+                );
             }
-            ensure!(t.header.header.check().is_ok() && t.slice.iter().all(|e| e.check().is_ok()) && t.header.length == t.slice.len(), "C07", "faults", "{}: contents damaged", what);
+            ensure!(
+                t.header.header.check().is_ok()
+                    && t.slice.iter().all(|e| e.check().is_ok())
+                    && t.header.length == t.slice.len(),
+                "C07",
+                "faults",
+                "{}: contents damaged",
+                what
+            );
             shadow::tracked(|| {
                 drop(t);
                 drop(co);
@@ -524,7 +713,11 @@ pub fn closure_panics(site: usize, shared: bool, st: &mut FStats) -> R {
         }
         1 | 2 | 3 => {
             let a: Arc<Multi> = shadow::tracked(|| Arc::new(Multi::make(5)));
-            let co = if shared { Some(shadow::tracked(|| a.clone())) } else { None };
+            let co = if shared {
+                Some(shadow::tracked(|| a.clone()))
+            } else {
+                None
+            };
             let r = shadow::tracked(|| {
                 catch(|| match site {
                     1 => {
@@ -544,8 +737,22 @@ pub fn closure_panics(site: usize, shared: bool, st: &mut FStats) -> R {
                     }),
                 })
             });
-            ensure!(r.is_err(), "C07", "faults", "{}: the panic was swallowed", what);
-            ensure!(Arc::count(&a) == want && a.check().is_ok(), "C07,C04", "faults", "{}: count {} after the panic, {} handles alive", what, Arc::count(&a), want);
+            ensure!(
+                r.is_err(),
+                "C07",
+                "faults",
+                "{}: the panic was swallowed",
+                what
+            );
+            ensure!(
+                Arc::count(&a) == want && a.check().is_ok(),
+                "C07,C04",
+                "faults",
+                "{}: count {} after the panic, {} handles alive",
+                what,
+                Arc::count(&a),
+                want
+            );
             shadow::tracked(|| {
                 drop(a);
                 drop(co);
@@ -555,7 +762,8 @@ pub fn closure_panics(site: usize, shared: bool, st: &mut FStats) -> R {
     }
     end(&what, id0, &[], 0)?;
     st.counts.bump("faults.closure.runs");
-    st.cases.insert(hash64(&format!("closure|{}|{}", site, shared)));
+    st.cases
+        .insert(hash64(&format!("closure|{}|{}", site, shared)));
     Ok(())
 }
 
@@ -563,12 +771,27 @@ pub fn closure_panics(site: usize, shared: bool, st: &mut FStats) -> R {
 // D. comparison / hash / format callbacks reached through every handle kind
 
 pub const CMP_HANDLES: usize = 7;
-const CMP_HNAMES: [&str; CMP_HANDLES] = ["Arc", "OffsetArc", "ArcBorrow", "ArcUnion", "ThinArc", "Arc<HeaderSlice<H,[T]>>", "Arc<HeaderSlice<HeaderWithLength<H>,[T]>>"];
+const CMP_HNAMES: [&str; CMP_HANDLES] = [
+    "Arc",
+    "OffsetArc",
+    "ArcBorrow",
+    "ArcUnion",
+    "ThinArc",
+    "Arc<HeaderSlice<H,[T]>>",
+    "Arc<HeaderSlice<HeaderWithLength<H>,[T]>>",
+];
 pub const CMP_OPS: usize = 6;
 const CMP_ONAMES: [&str; CMP_OPS] = ["eq", "ne", "partial_cmp", "cmp", "hash", "Debug"];
 
 /// returns the number of callback invocations performed (when no panic was armed)
-fn cmp_call(h: usize, op: usize, x: &Arc<Multi>, y: &Arc<Multi>, tx: &ThinArc<T8, T8>, ty: &ThinArc<T8, T8>) -> bool {
+fn cmp_call(
+    h: usize,
+    op: usize,
+    x: &Arc<Multi>,
+    y: &Arc<Multi>,
+    tx: &ThinArc<T8, T8>,
+    ty: &ThinArc<T8, T8>,
+) -> bool {
     let mut hs = std::collections::hash_map::DefaultHasher::new();
     match h {
         0 => match op {
@@ -670,12 +893,28 @@ pub fn cmp_panics(h: usize, op: usize, st: &mut FStats) -> R {
         let id0 = begin();
         let x: Arc<Multi> = shadow::tracked(|| Arc::new(Multi::make(30)));
         let y: Arc<Multi> = shadow::tracked(|| Arc::new(Multi::make(30)));
-        let tx: ThinArc<T8, T8> = shadow::tracked(|| ThinArc::from_header_and_iter(T8::make(3), fit(2, 0, vec![], true).0));
-        let ty: ThinArc<T8, T8> = shadow::tracked(|| ThinArc::from_header_and_iter(T8::make(3), fit(2, 0, vec![], true).0));
-        let fx = shadow::tracked(|| Arc::from_header_and_iter(T8::make(3), fit(2, 0, vec![], true).0));
-        let fy = shadow::tracked(|| Arc::from_header_and_iter(T8::make(3), fit(2, 0, vec![], true).0));
-        let lx = shadow::tracked(|| Arc::from_header_and_iter(HeaderWithLength::new(T8::make(3), 2), fit(2, 0, vec![], true).0));
-        let ly = shadow::tracked(|| Arc::from_header_and_iter(HeaderWithLength::new(T8::make(3), 2), fit(2, 0, vec![], true).0));
+        let tx: ThinArc<T8, T8> = shadow::tracked(|| {
+            ThinArc::from_header_and_iter(T8::make(3), fit(2, 0, vec![], true).0)
+        });
+        let ty: ThinArc<T8, T8> = shadow::tracked(|| {
+            ThinArc::from_header_and_iter(T8::make(3), fit(2, 0, vec![], true).0)
+        });
+        let fx =
+            shadow::tracked(|| Arc::from_header_and_iter(T8::make(3), fit(2, 0, vec![], true).0));
+        let fy =
+            shadow::tracked(|| Arc::from_header_and_iter(T8::make(3), fit(2, 0, vec![], true).0));
+        let lx = shadow::tracked(|| {
+            Arc::from_header_and_iter(
+                HeaderWithLength::new(T8::make(3), 2),
+                fit(2, 0, vec![], true).0,
+            )
+        });
+        let ly = shadow::tracked(|| {
+            Arc::from_header_and_iter(
+                HeaderWithLength::new(T8::make(3), 2),
+                fit(2, 0, vec![], true).0,
+            )
+        });
         let c0 = tk::cb_calls();
         tk::cb_panic_at(k as i64);
         let mut applicable = true;
@@ -726,14 +965,37 @@ pub fn cmp_panics(h: usize, op: usize, st: &mut FStats) -> R {
         }
         if k == 0 {
             calls = made;
-            ensure!(r.is_ok(), "C07", "faults", "{}: panicked without an injected fault", what);
+            ensure!(
+                r.is_ok(),
+                "C07",
+                "faults",
+                "{}: panicked without an injected fault",
+                what
+            );
         } else {
-            ensure!(r.is_err() == (k <= calls), "C07", "faults", "{}: panicked={} with {} callbacks in the unfaulted run", what, r.is_err(), calls);
-            st.counts.bump(if r.is_err() { "faults.cmp.propagated" } else { "faults.cmp.completed" });
+            ensure!(
+                r.is_err() == (k <= calls),
+                "C07",
+                "faults",
+                "{}: panicked={} with {} callbacks in the unfaulted run",
+                what,
+                r.is_err(),
+                calls
+            );
+            st.counts.bump(if r.is_err() {
+                "faults.cmp.propagated"
+            } else {
+                "faults.cmp.completed"
+            });
         }
         // every handle survives, with count 1 and intact contents
         ensure!(
-            Arc::count(&x) == 1 && Arc::count(&y) == 1 && ThinArc::strong_count(&tx) == 1 && ThinArc::strong_count(&ty) == 1 && Arc::count(&fx) == 1 && Arc::count(&lx) == 1,
+            Arc::count(&x) == 1
+                && Arc::count(&y) == 1
+                && ThinArc::strong_count(&tx) == 1
+                && ThinArc::strong_count(&ty) == 1
+                && Arc::count(&fx) == 1
+                && Arc::count(&lx) == 1,
             "C07,C04",
             "faults",
             "{}: a count moved: {} {} {} {} {} {}",
@@ -745,7 +1007,16 @@ pub fn cmp_panics(h: usize, op: usize, st: &mut FStats) -> R {
             Arc::count(&fx),
             Arc::count(&lx)
         );
-        ensure!(x.check().is_ok() && y.check().is_ok() && tx.slice.iter().all(|e| e.check().is_ok()) && fx.slice.iter().all(|e| e.check().is_ok()), "C07", "faults", "{}: contents damaged", what);
+        ensure!(
+            x.check().is_ok()
+                && y.check().is_ok()
+                && tx.slice.iter().all(|e| e.check().is_ok())
+                && fx.slice.iter().all(|e| e.check().is_ok()),
+            "C07",
+            "faults",
+            "{}: contents damaged",
+            what
+        );
         shadow::tracked(|| {
             drop((x, y, tx, ty, fx, fy, lx, ly));
         });
@@ -816,19 +1087,46 @@ pub fn alloc_child(site: usize, nth: i64) -> i32 {
 
 /// Parent side (M5): run children with the n-th allocation failing until a child reaches DONE.
 pub fn alloc_failures(site: usize, st: &mut FStats) -> R {
-    let exe = std::env::current_exe().map_err(|e| Viol { props: "", oracle: "harness", msg: format!("current_exe: {}", e) })?;
+    let exe = std::env::current_exe().map_err(|e| Viol {
+        props: "",
+        oracle: "harness",
+        msg: format!("current_exe: {}", e),
+    })?;
     for nth in 1..=8i64 {
         let out = std::process::Command::new(&exe)
-            .args(["allocchild", &format!("site={}", site), &format!("nth={}", nth)])
+            .args([
+                "allocchild",
+                &format!("site={}", site),
+                &format!("nth={}", nth),
+            ])
             .output()
-            .map_err(|e| Viol { props: "", oracle: "harness", msg: format!("spawn: {}", e) })?;
+            .map_err(|e| Viol {
+                props: "",
+                oracle: "harness",
+                msg: format!("spawn: {}", e),
+            })?;
         let so = String::from_utf8_lossy(&out.stdout).to_string();
         let se = String::from_utf8_lossy(&out.stderr).to_string();
         let what = format!("{}: allocation #{} fails", ALLOC_NAMES[site], nth);
         use std::os::unix::process::ExitStatusExt;
-        ensure!(so.contains("ARMED"), "", "harness", "{}: child did not start: {} {}", what, so, se);
+        ensure!(
+            so.contains("ARMED"),
+            "",
+            "harness",
+            "{}: child did not start: {} {}",
+            what,
+            so,
+            se
+        );
         if so.contains("DONE") {
-            ensure!(out.status.success(), "C07", "alloc-failure", "{}: child finished the call but exited with {:?}", what, out.status);
+            ensure!(
+                out.status.success(),
+                "C07",
+                "alloc-failure",
+                "{}: child finished the call but exited with {:?}",
+                what,
+                out.status
+            );
             st.counts.bump("faults.alloc.no-more-allocations");
             break;
         }
@@ -848,7 +1146,16 @@ pub fn alloc_failures(site: usize, st: &mut FStats) -> R {
                 return viol("C07", "alloc-failure", format!("{}: the process died with signal {} instead of reporting the allocation failure", what, sig));
             }
             None => {
-                return viol("C07", "alloc-failure", format!("{}: the process exited with {:?} without finishing the call: {}", what, out.status.code(), se.lines().last().unwrap_or("")));
+                return viol(
+                    "C07",
+                    "alloc-failure",
+                    format!(
+                        "{}: the process exited with {:?} without finishing the call: {}",
+                        what,
+                        out.status.code(),
+                        se.lines().last().unwrap_or("")
+                    ),
+                );
             }
         }
         st.cases.insert(hash64(&format!("alloc|{}|{}", site, nth)));
